@@ -142,6 +142,8 @@ TInv ==
        IN /\ IF bad = {} THEN TRUE
              ELSE PrintT(ToJson([l |-> l, bad |-> bad, class |-> cls, why |-> pl.why, cmd |-> c, mg |-> inv.mode \o "-" \o inv.gf]))
           /\ TLCSet(1, Bump(TLCGet(1), cls \o "/" \o c \o "/" \o pl.why))
+          \* (vacuity counter of Repeatable: keys starting with "@" are not invocation classes)
+          /\ IF stable /\ key \in DOMAIN seen THEN TLCSet(1, Bump(TLCGet(1), "@repeated/" \o c)) ELSE TRUE
           /\ seen' = IF stable /\ key \notin DOMAIN seen THEN (key :> ln.oa.dgs) @@ seen ELSE seen
           /\ pfs' = ln.fs
     /\ P' = P /\ gfull' = gfull /\ l' = l + 1
